@@ -5,61 +5,61 @@ ROOT = os.path.dirname(os.path.dirname(os.path.abspath(__file__)))
 
 # id -> (technique, level text, level note, design ref); only properties listed here are claimed
 CLAIMED = {
- "C01": ("property-based testing (proptest, seeded, sharded) against a definition-level bit-vector model + exhaustive enumeration of small sizes; both build profiles",
+ "C01": ("property-based testing (proptest, seeded, sharded) against a definition-level bit-vector model + exhaustive enumeration of small sizes; aliased operands and operands placed at different offsets modulo 16 bytes; both build profiles",
          "Generated-input search: all 28 syntactic forms of NOT/AND/OR/XOR are executed on generated pairs of tables (n up to 12/14, dense, word-structured, sparse, related pairs) and on ALL pairs for n<=2 (quick) / n<=3 (thorough), for Lut and every LutN alias, and compared with the Boolean definition on every assignment. Exploration: absence of a counterexample among the cases explored, not a proof.",
          "Trusts value() and from_blocks()/set_bit() as observation/loading channel and the harness model (model.rs).", "DESIGN.md §4 C01"),
  "C02": ("stateful model-based property testing: generated API-call histories with an invariant checked after every step; exhaustive single steps for n<=3; libFuzzer history target (thorough)",
          "Histories of public API calls over a pool of tables are interpreted on the library; after every step the written slot must be well formed (block count, no bit >= 2^n) and ==, !=, cmp, partial_cmp, Hash must agree with equality of the functions read through value(), against every slot and a from_blocks twin; HashSet/BTreeSet sizes at the end. Exploration over histories (inductive step + long sequences).",
          "Trusts value() as the functional view; what operations compute is judged by other properties.", "DESIGN.md §4 C02"),
- "C03": ("property-based testing against the definition (bit-exchange / cofactor definitions evaluated per assignment) + exhaustive n<=3/4; all index regimes",
+ "C03": ("property-based testing against the definition (bit-exchange / cofactor definitions evaluated per assignment) + exhaustive n<=3/4; all index regimes; libFuzzer target transforms (thorough)",
          "flip, swap, swap_adjacent (copying/in-place, both argument orders), cofactors, from_cofactors of arbitrary c0/c1 and recomposition are compared with the definition on every assignment for generated dense tables with regime-balanced index pairs and exhaustively for n<=3/4.",
          "Trusts value()/from_blocks(); stray bits not inspected (C02).", "DESIGN.md §4 C03"),
- "C04": ("property-based testing against an independent group-enumeration oracle (next-permutation x polarity counter), exhaustive n<=3/4, hook-based exhaustive walk validation n<=8, metamorphic orbit invariance",
+ "C04": ("property-based testing against an independent group-enumeration oracle (next-permutation x polarity counter), exhaustive n<=3/4, hook-based exhaustive walk validation n<=8, metamorphic orbit invariance; libFuzzer target canon (thorough)",
          "Representatives are compared with the minimum of the orbit enumerated by the harness itself (all functions n<=3/4, generated n<=8); the hard-coded/generated swap and flip walks are replayed through the hook and shown to visit every group element once in a closed cycle for n<=8 (exhaustive, deterministic); canon(g.f)=canon(f) metamorphic checks. Exploration for the sampled f; the walk check is complete for the tables it covers.",
          "Hook repeats the size dispatch; n>=9 not explored; oracle and library share only the definition of the group action.", "DESIGN.md §4 C04"),
- "C05": ("property-based testing with an independent certificate evaluator; exhaustive n<=3/4; every case re-canonizes the returned representative (fixed-point inputs)",
+ "C05": ("property-based testing with an independent certificate evaluator; exhaustive n<=3/4; every case re-canonizes the returned representative (fixed-point inputs); libFuzzer target witness (thorough)",
          "The returned (perm, mask) is applied to the argument by the harness exactly as the property words it and must reproduce the returned table; validity of perm and mask; exhaustive for all f n<=3/4 x 3 groups x 2 families, generated up to n=8.",
          "Any valid certificate accepted; a panicking canonization is C04's business.", "DESIGN.md §4 C05"),
- "C06": ("property-based testing with constructive class-targeted generation (tables built from cofactors + 0-2 bit perturbations) against the cofactor definition; exhaustive n<=3/4",
+ "C06": ("property-based testing with constructive class-targeted generation (tables built from cofactors + 0-2 bit perturbations) against the cofactor definition; exhaustive n<=3/4; libFuzzer target decomp (thorough)",
          "top_decomposition / is_pos_unate / is_neg_unate are compared with the priority chain evaluated on definition-level cofactors for every variable of generated tables of every class (and near-misses), n<=12, and for all functions n<=3/4.",
          "DecompositionType compared via its Debug name.", "DESIGN.md §4 C06"),
- "C07": ("property-based testing against a textbook complement-edge ROBDD (unique table) + metamorphic variants (order, duplicates, complements); exhaustive singles n<=3/4 and pairs n<=2/3",
+ "C07": ("property-based testing against a textbook complement-edge ROBDD (unique table) + metamorphic variants (order, duplicates, complements, lists of more than 4096 words); exhaustive singles n<=3/4 and pairs n<=2/3; libFuzzer target bdd (thorough)",
          "bdd_complexity of generated lists of 0..4 functions (n<=11, sub-function-sharing classes) must equal the node count of the harness's own shared ROBDD and be invariant under reordering, duplication and complementation; exhaustive small domains.",
          "Oracle shares no code with bdd.rs; variable order n-1 at the root as stated.", "DESIGN.md §4 C07"),
- "C08": ("property-based testing against big-integer comparison (opposed-pair generator), complete iterator runs n<=3/4, hook-based successor/iterator checks from generated tables incl. word carries",
+ "C08": ("property-based testing against big-integer comparison (opposed-pair generator), complete iterator runs n<=3/4, hook-based successor/iterator checks from generated tables incl. word carries; std iterator adaptors (nth/skip/step_by/count/last/fold/for_each/collect/filter/max/by_ref, also beyond the end) against repeated next()",
          "cmp/partial_cmp/relations/==/sort/hex-string order versus the harness's numeric comparison on generated tuples (also different n) and all pairs n<=2/3; full all_functions runs; through the hooks, successor steps and iterator tails from arbitrary tables (low words all ones, near the top) versus model +1.",
          "The carry path uses the cfg-guarded hooks (public path needs 2^64 steps).", "DESIGN.md §4 C08"),
- "C09": ("property-based testing: formatter oracle + grammar/corruption-based string generator against an explicit accept-set oracle; exhaustive small alphabets; libFuzzer hex target (thorough)",
+ "C09": ("property-based testing: formatter oracle + grammar/corruption-based string generator against an explicit accept-set oracle; formatting traits under non-default format specifications; exhaustive small alphabets; libFuzzer hex target (thorough)",
          "All five text forms versus a definition-level formatter; from_hex_string on printed tables with structured corruptions (signs, non-hex, upper case, multi-byte UTF-8, length +-1/2, chunk-boundary positions) versus the accept set `exactly width hex digits fitting 2^n bits`; exhaustive over a 20-symbol alphabet up to width+1 for n<=3/4.",
          "Upper-case digits may be accepted or rejected.", "DESIGN.md §4 C09"),
- "C10": ("differential property-based testing: the same generated API history interpreted on Lut and on LutN, outcomes compared step by step; conversion round trips; exhaustive u8/u16 integer conversions; libFuzzer differential history target (thorough)",
+ "C10": ("differential property-based testing: the same generated API history interpreted on Lut and on LutN, outcomes compared step by step; conversion round trips; canonization certificates at N = 8..12; a fixed-size type beyond the aliases (StaticLut<13,128>); exhaustive u8/u16 integer conversions; libFuzzer differential history target (thorough)",
          "For N in 0..=12 generated histories over the whole common API give identical outcomes (blocks, certificates, classifications, counts, strings, orderings, Ok/Err) on both families; Lut<->LutN conversions lossless and failing exactly on size mismatch; integer conversions bit-exact (exhaustive for u8/u16).",
          "Default excluded (Lut::default() has 0 variables); canonization N>=9 not exercised.", "DESIGN.md §4 C10"),
- "C11": ("exhaustive enumeration of constructor arguments against popcount definitions, plus generated count masks",
+ "C11": ("exhaustive enumeration of constructor arguments (n <= 13 for LutN incl. StaticLut<13,128>, n <= 16 for Lut) against popcount definitions, plus generated count masks",
          "Every (family, n, constructor, argument) with k in 0..=n+2 and the large values up to usize::MAX is enumerated and compared with the popcount definition on every assignment; symmetric(c) additionally with generated c.",
          "Finite domain enumerated completely except symmetric(c).", "DESIGN.md §4 C11"),
  "C12": ("property-based testing against a literal-set model with constructed witness assignments; exhaustive all cube pairs n<=4/5; libFuzzer cube target (thorough)",
          "Cubes built through every constructor and chains of & are compared with the literal-set model: literals, value, canonical zero, equality, implies/intersects decided semantically (enumeration for n<=5, theorem + witness for wide cubes), implies_lut by definition, minterm, counts, Cube::all completeness.",
          "Variables < 32; minterm(32,.) outside the domain.", "DESIGN.md §4 C12"),
- "C13": ("property-based testing against parity / OR-of-parities models; exhaustive ecube pairs n<=4/5 and Soes term lists",
+ "C13": ("property-based testing against parity / OR-of-parities models; exhaustive ecube pairs n<=4/5 and Soes term lists; Soes over 9..32 variables compared pointwise (soes-wide); aliased operands",
          "Ecube value/xor/not/equality/enumeration and Soes value/or/Lut conversion/is_zero/is_one against the definitions, generated up to 32 variables (ecube) / n=8 (soes), exhaustive small domains.",
          "Variables < 32.", "DESIGN.md §4 C13"),
- "C14": ("property-based testing over generated expression trees with designed-redundancy cube lists; every intermediate result checked semantically and structurally; exhaustive n<=2 subsets / n=3 lists; libFuzzer expression target (thorough)",
+ "C14": ("property-based testing over generated expression trees with designed-redundancy cube lists; every intermediate result checked semantically and structurally; exhaustive n<=2 subsets / n=3 lists; expressions over 11..32 variables compared pointwise and on literal sets (wide); aliased operands; libFuzzer expression target (thorough)",
          "Every &, |, ! result inside generated expressions denotes the operation on the operand functions (value, Lut, cubes) and contains no contradictory, duplicate or absorbed cube; is_zero exact, is_one sound; Lut<->Sop minterm cover round trip.",
          "! and & bounded by operand size (exponential), not by time.", "DESIGN.md §4 C14"),
- "C15": ("property-based testing against definition-level ANF coefficients; exhaustive all functions n<=3/4; operator checks on generated mixed-polarity cube lists",
+ "C15": ("property-based testing against definition-level ANF coefficients; exhaustive all functions n<=3/4; operator checks on generated mixed-polarity cube lists, also over 11..32 variables (wide); aliased operands",
          "Esop::from(&lut).cubes() equals exactly the set of monomials with ANF coefficient 1 (no negative literal, no repetition), round trips, history independence; ^ and ! pointwise.",
          "Cube order unconstrained.", "DESIGN.md §4 C15"),
- "C16": ("property-based testing with the harness's own tokenizer/parser/evaluator for the printed grammar (round trip print -> parse -> evaluate vs value()); exhaustive small objects",
+ "C16": ("property-based testing with the harness's own tokenizer/parser/evaluator for the printed grammar (round trip print -> parse -> evaluate vs value()), also under non-default format specifications and for texts of hundreds of KiB (hugetext); exhaustive small objects; libFuzzer display target (thorough)",
          "to_string() of cubes, exclusive cubes, Sop, Esop, Soes is parsed completely by an independent reader and evaluates like value() on all/sampled assignments; index order; distinct cubes print distinctly.",
          "Grammar as stated in the property.", "DESIGN.md §4 C16"),
  "C17": ("fault-style enumeration of out-of-range/mismatched arguments under catch_unwind in two build profiles + differential property-based testing between build profiles (peer process executes the same generated history)",
          "Every index/assignment/size-mismatch/slice-length misuse listed in the property is enumerated for n<=8 in both profiles and must panic; generated valid histories must give identical outcomes in the release build and the debug-assertions+overflow-checks build with no panic on either side.",
          "Panics observed by unwinding; unreachable peer = inconclusive.", "DESIGN.md §4 C17"),
- "C18": ("property-based testing against an exact dynamic-programming optimum and an independent cost model; exhaustive single functions n<=2/3 and pairs n<=1/2",
+ "C18": ("property-based testing against an exact dynamic-programming optimum and an independent cost model; exhaustive single functions n<=2/3 and pairs n<=1/2; metamorphic embedding; planted multi-output covers as a sound upper bound (n = 4..6, 2..4 outputs)",
          "The three MIP optimizers' results are validated (function, implicants) and their cost under the documented model is compared with the exact optimum computed by the harness's own DP over all cubes/XOR terms (multi-output with sharing), or with a sound bound where the DP is out of reach.",
          "HiGHS trusted to terminate; 3 outputs at n>=3 and 2 outputs at n=4 only bounded.", "DESIGN.md §4 C18"),
- "C19": ("statistical property-based testing of random() with analytically fixed thresholds (false alarm < 2^-200), single thread and 16 barrier-released threads",
+ "C19": ("statistical property-based testing of random() with analytically fixed thresholds (false alarm < 2^-200), single thread and 16 barrier-released threads; GF(2) rank of the draws and per-draw dependence on every variable",
          "256 draws per size per thread, for Lut and LutN, n<=12: every draw well formed, every assignment takes both values, draws differ, threads differ.",
          "thread_rng cannot be seeded; bias below the stated thresholds is not detected.", "DESIGN.md §4 C19"),
 }
@@ -98,7 +98,7 @@ def main():
       "engines": [
         {"name":"vharness","path":"harness/","serves_properties":[c["property_id"] for c in checks if c["property_id"]!="C18"],
          "kind_free_text":"Rust crate: seeded proptest runners sharded over threads + exhaustive enumerators + definition-level oracles; built in two profiles (release / release+debug-assertions+overflow-checks); driver ./check merges evidence"},
-        {"name":"vfuzz","path":"harness/fuzz/ (cargo-fuzz, libFuzzer)","serves_properties":["C02","C09","C10","C12","C14","C16"],
+        {"name":"vfuzz","path":"harness/fuzz/ (cargo-fuzz, libFuzzer)","serves_properties":["C02","C03","C04","C05","C06","C07","C09","C10","C12","C14","C16"],
          "kind_free_text":"coverage-guided byte-level targets (thorough tier) decoding into the same Case types and judged by the same oracles; every stop is converted to a replay file and re-judged by vcheck in both profiles before it is reported"},
         {"name":"vharness-mip","path":"harness/ (bin vcheck_mip, feature mip -> volute/optim-mip, HiGHS)","serves_properties":["C18"],
          "kind_free_text":"same engine, separate binary so that HiGHS is only linked where it is needed"},
